@@ -59,7 +59,7 @@ func c01Panics(c *Ctx) {
 	})
 	r.Extra("entry_points", len(roots))
 	r.Extra("functions_in_scope", len(fns))
-	r.Floor("no-panic", len(fns), 500, "functions reachable from the entry points")
+	r.Floor("no-panic", len(fns), 400, "functions reachable from the entry points")
 	be := newBoundsEngine(p)
 	// R1 / R2
 	npanic, nassert := 0, 0
@@ -121,15 +121,58 @@ func c01Panics(c *Ctx) {
 		}
 	}
 	r.OK("no-panic", "scan", "-", sprintf("%d functions scanned, %d explicit panics", len(fns), npanic))
-	r.Floor("type-assert", nassert, 20, "single-result type assertions")
+	r.Floor("type-assert", nassert, 10, "single-result type assertions")
 	// R3 bounds
 	total, audited := 0, 0
 	usedAudit := map[string]bool{}
+	// expressions present per function (to recognise an audited expression that moved into an extracted helper)
+	present := map[string]map[string]bool{}
+	obsOf := map[*ssa.Function][]boundOb{}
+	byName := map[string]*ssa.Function{}
 	for _, fn := range fns {
 		if !core.InPkgs(fn, boundsPkgs...) {
 			continue
 		}
-		for _, o := range be.checkFunction(fn) {
+		obs := be.checkFunction(fn)
+		obsOf[fn] = obs
+		byName[core.FnName(fn)] = fn
+		present[core.FnName(fn)] = map[string]bool{}
+		for _, o := range obs {
+			present[core.FnName(fn)][o.expr] = true
+		}
+	}
+	// movedAudit: the expression is audited for function F, F no longer contains it, and fn is called from F only
+	movedAudit := func(fn *ssa.Function, expr string) string {
+		for k, why := range boundsAudit {
+			i := strings.LastIndex(k, "|")
+			if i < 0 || k[i+1:] != expr {
+				continue
+			}
+			from := byName[k[:i]]
+			if from == nil || from == fn || present[k[:i]][expr] {
+				continue
+			}
+			node := p.CallGraph().Nodes[fn]
+			if node == nil || len(node.In) == 0 {
+				continue
+			}
+			only := true
+			for _, e := range node.In {
+				if e.Caller.Func != from {
+					only = false
+				}
+			}
+			if only {
+				return "audited in " + k[:i] + ", from which this code was extracted (its only caller): " + why
+			}
+		}
+		return ""
+	}
+	for _, fn := range fns {
+		if !core.InPkgs(fn, boundsPkgs...) {
+			continue
+		}
+		for _, o := range obsOf[fn] {
 			total++
 			key := core.FnName(fn) + "|" + o.expr
 			switch {
@@ -139,6 +182,9 @@ func c01Panics(c *Ctx) {
 				audited++
 				usedAudit[key] = true
 				r.OK("bounds", key, p.Pos(o.pos), "audited: "+boundsAudit[key])
+			case movedAudit(fn, o.expr) != "":
+				audited++
+				r.OK("bounds", key, p.Pos(o.pos), movedAudit(fn, o.expr))
 			default:
 				r.Violate("bounds", key, p.Pos(o.pos), "index/slice expression without a recognised bounds guard ("+o.reason+") and not in the audited table")
 			}
@@ -219,7 +265,7 @@ func c01ChildrenNil(c *Ctx) {
 			}
 		}
 	}
-	r.Floor("children-nil-guard", n, 15, "pointer-field conversions in Children()")
+	r.Floor("children-nil-guard", n, 10, "pointer-field conversions in Children()")
 }
 
 func c01Recover(c *Ctx) {
